@@ -29,6 +29,7 @@ type RenderContext struct {
 	inParentCall       bool       // Flag to indicate if we're currently rendering a parent() call
 	sandboxed          bool       // Flag indicating if this context is sandboxed
 	lastLoadedTemplate *Template  // The template that created this context (for resolving relative paths)
+	templateName       string     // Name of the template this render call started from (base of ./ and ../ names)
 }
 
 // contextMapPool is a pool for the maps used in RenderContext
@@ -113,6 +114,7 @@ func NewRenderContext(env *Environment, context map[string]interface{}, engine *
 	ctx.parent = nil
 	ctx.inParentCall = false
 	ctx.sandboxed = false
+	ctx.templateName = ""
 
 	// Copy the context values directly
 	if context != nil {
@@ -331,6 +333,7 @@ func (ctx *RenderContext) Clone() *RenderContext {
 
 	// Inherit sandbox state
 	newCtx.sandboxed = ctx.sandboxed
+	newCtx.templateName = ctx.templateName
 
 	// Copy the lastLoadedTemplate reference (crucial for relative path resolution)
 	newCtx.lastLoadedTemplate = ctx.lastLoadedTemplate
